@@ -19,6 +19,7 @@ from ..kpe import Interp, SymObj, ClassRef, FuncRef, to_obj_array, S, OutsideFra
 from ..regions import RegionDecider
 from . import drv
 from . import c03
+from .common import Relabel
 
 R = sp.Rational
 BASE = "hiten.algorithms.dynamics.base"
@@ -41,23 +42,9 @@ def run(tier):
     return chk
 
 
-class _Relabel:
+def _Relabel(chk):
     """Re-files C03.c obligations under C10.b."""
-
-    def __init__(self, chk):
-        self._chk = chk
-
-    def __getattr__(self, k):
-        return getattr(self._chk, k)
-
-    def check(self, cond, rule, construct, *a, **kw):
-        return self._chk.check(cond, rule.replace("C03.c", "C10.b"), construct, *a, **kw)
-
-    def ok(self, rule, construct, *a, **kw):
-        return self._chk.ok(rule.replace("C03.c", "C10.b"), construct, *a, **kw)
-
-    def fail(self, rule, construct, *a, **kw):
-        return self._chk.fail(rule.replace("C03.c", "C10.b"), construct, *a, **kw)
+    return Relabel(chk, {"C03.c": "C10.b"})
 
 
 def _integrator(cls_name, modname):
